@@ -270,6 +270,15 @@ R23 = {
  "C17": "an HTTP/1 local reply with a non-HTTP header map is sent with its status (default arm of the type switch)",
  "C18": "the HTTP/2 client skips interim 1xx responses",
 }
+R24 = {
+ "C01": "the tars encoder only reads the retained package (no in-place patch of rawData)",
+ "C05": "EdfLoadBalancer.ChooseHost returns nil only under size == 0, the only host unhealthy, or firstHealthyHost == nil",
+ "C09": "the HTTP/1 client raises OnGoAway before the response is handed over",
+ "C11": "a relayed response is dequeued only after the transfer socket was dialed",
+ "C13": "sdsProvider.update never writes the provider's long-lived secret info",
+ "C18": "a header block split across reads is parsed as in one read (the framer state the parse wrote is restored)",
+ "C20": "redactJSONValue descends into every member and element (no short-circuit on the accumulated flag)",
+}
 GENERIC = "generic hygiene over the property's packages: no loop-variable address escapes its iteration, every mutex acquired in a function is released on every path to its return and not re-acquired in a callee, a field accessed through sync/atomic is never accessed plainly outside construction (frozen exceptions), storage given back to a pool is not returned or stored, no append onto a loop-invariant slice whose result is kept, no signed remainder of a converted unsigned 64-bit value or of a wrapping signed 32-bit counter, no remainder of a 32-bit sum with an unreduced atomic counter, a receiver field a method rewrites is not retained by what the method hands it to, a key looked up in a map field under a mutex and inserted when absent is inserted in the same critical section"
 props = [json.loads(l)['id'] for l in open('/verif/properties.jsonl')]
 checks, na = [], []
@@ -305,6 +314,8 @@ for p in props:
         dec = dec + "; " + R22[p]
     if p in R23:
         dec = dec + "; " + R23[p]
+    if p in R24:
+        dec = dec + "; " + R24[p]
     dec = dec + "; " + GENERIC
     tech = tech + ", lock-balance and atomic-discipline dataflow"
     if p in R8:
